@@ -202,6 +202,8 @@ def generate(rng, tier):
         cases.append({'kind': 'itp', 'mols': c13_ff.gen_itp(rng)})
     for _ in range(100 * k):
         cases.append({'kind': 'mapping', 'file': c13_map.gen_file(rng)})
+    for i in range(40 * k):
+        cases.append({'kind': 'mapfault', 'file': c13_map.gen_file(rng), 'fault': c13_map.MAP_FAULTS[i % len(c13_map.MAP_FAULTS)], 'sub': rng.randrange(10 ** 6)})
     return cases
 
 
@@ -295,6 +297,8 @@ def run_impl(inp):
         return {'msg': 'a file with the fault %s was loaded without an error' % inp['fault'], 'text': lines}
     if k == 'mapping':
         return c13_map.run(inp['file'])
+    if k == 'mapfault':
+        return c13_map.run_fault(inp['file'], inp['fault'], inp['sub'])
     if k == 'itp':
         lines = c13_ff.print_itp(inp['mols'])
         try:
@@ -360,7 +364,7 @@ def emit(inp, out):
 
 
 def py_prop(inp, out):
-    if inp['kind'] in ('ff', 'fault', 'itp', 'mapping'):
+    if inp['kind'] in ('ff', 'fault', 'itp', 'mapping', 'mapfault'):
         return out.get('msg')
     return None
 
@@ -399,6 +403,8 @@ def describe(inp, out):
         d['line_natoms'] = inp['natoms']
         d['line_has_delim'] = '--' in inp['tokens']
         d['line_by_index'] = any(t.isdigit() for t in (out['line'] or [[]])[0]) or any(t.isdigit() for t in inp['tokens'][:2])
+    if inp['kind'] == 'mapfault':
+        d['mapping_fault'] = inp['fault']
     if inp['kind'] == 'mapping':
         ms = inp['file']['mappings']
         d['mapping_residues'] = max(len(m['resnames']) for m in ms)
